@@ -23,6 +23,7 @@ const (
 	SSet  = "(Array Int Bool)"      // sets of Int keys
 	SSetR = "(Array tq_Ref Bool)"   // sets of opaque keys
 	SMapR = "(Array tq_Ref tq_Ref)" // abstract maps
+	SMapRI = "(Array tq_Ref Int)"   // ghost counters per object (gauges)
 )
 
 type Term struct {
@@ -548,6 +549,8 @@ func elemSort(arr string) string {
 		return SBool
 	case SMapR:
 		return SRef
+	case SMapRI:
+		return SInt
 	}
 	panic("elemSort of " + arr)
 }
